@@ -6,6 +6,7 @@ import Mathlib.Probability.Independence.Basic
 import Mathlib.Probability.CDF
 import Mathlib.MeasureTheory.Function.JacobianOneDim
 import Mathlib.MeasureTheory.Integral.IntegralEqImproper
+import ChiProofs.Lemmas.Phi
 
 /-!
 # Helper lemmas for C06 (measure theory of the primitive draws; no property statements here)
@@ -15,7 +16,7 @@ namespace ChiModel
 open ScalarFns ProbabilityTheory MeasureTheory Filter Topology
 open scoped NNReal ENNReal
 
-@[simp] theorem zero_real : (zero : ℝ) = 0 := by simp [zero]
+@[simp] theorem c06_zero_real : (zero : ℝ) = 0 := by simp [zero]
 @[simp] theorem one_real : (one : ℝ) = 1 := by simp [one]
 
 /-- the variance `s²` as an `ℝ≥0` -/
@@ -151,7 +152,6 @@ theorem preimage_normalPrim_Ici (mu sigma c : ℝ) (hs : 0 < sigma) :
   constructor <;> intro h <;> nlinarith
 
 /-- standard normal cdf -/
-noncomputable def Phi (x : ℝ) : ℝ := cdf (gaussianReal 0 1) x
 
 theorem stdGaussian_Ici (a : ℝ) : gaussianReal 0 1 (Set.Ici a) = ENNReal.ofReal (1 - Phi a) := by
   have hns := nullSingletonClass_gaussianReal (μ := 0) (v := 1) one_ne_zero
@@ -175,7 +175,7 @@ theorem one_sub_Phi_pos (a : ℝ) : 0 < 1 - Phi a := by
   simp [Real.volume_Ici] at this
 
 /-- the documented truncated-Gaussian density (on `[0, ∞)`) -/
-noncomputable def truncGaussPDF (mu sigma x : ℝ) : ℝ :=
+noncomputable def c06TruncGaussPDF (mu sigma x : ℝ) : ℝ :=
   gaussianPDFReal mu (sqv sigma) x / (1 - Phi (-mu / sigma))
 
 /-- the legacy sampler (`truncnorm(a=0, …)`) draws the Gaussian conditioned on `[mu, ∞)` -/
